@@ -667,16 +667,20 @@ class CSSStyleDeclaration(CSS2Properties, cssutils.util.Base2):
 
         if newp.wellformed:
             if replace:
-                # check if update
+                # check if update (the text as it was given: what is stored
+                # does not depend on the current serializer preferences)
+                newtext = (
+                    value if isinstance(value, str) else newp.propertyValue.cssText
+                )
                 nname = self._normalize(name)
                 properties = self.getProperties(name, all=(not normalize))
                 for property in reversed(properties):
                     if normalize and property.name == nname:
-                        property.propertyValue = newp.propertyValue.cssText
+                        property.propertyValue = newtext
                         property.priority = newp.priority
                         return
                     elif property.literalname == name:
-                        property.propertyValue = newp.propertyValue.cssText
+                        property.propertyValue = newtext
                         property.priority = newp.priority
                         return
 
